@@ -20,6 +20,7 @@ CONFIGS = {
                                                             '$B': {'$A': 0.7, '$C': 0.3, '$B': 0.0, '$D': 0.0},
                                                             '$C': {'$A': 0., '$C': 0., '$B': 0.3, '$D': 0.7},
                                                             '$D': {'$A': 0.3, '$C': 0.7, '$B': 0.0, '$D': 0.0}}), aa=True),
+    'vinylimidazole': dict(frags='{#VIM=[>]CC[<]c1c[nH]cn1,#ST=[>]CC[<]c1ccccc1}', kw=dict(polymer_reactivities={'>': 0.5, '<': 0.5}), aa=True),
     'two_labels_on_one_atom': dict(frags='{#MET=[$A]C[$B],#EO=[$C]CO[$D]}',
                                    kw=dict(polymer_reactivities={'$A': 0.4, '$B': 0.1, '$C': 0.3, '$D': 0.2},
                                            fragment_reactivities={'$A': {'$A': 0.0, '$B': 0.0, '$C': 0.5, '$D': 0.5},
@@ -65,7 +66,7 @@ CONFIGS = {
                                 polymer_reactivities={'<': 0.3, '>': 0.3, '$A': 0.4, '$B': 0.0},
                                 fragment_reactivities={'$A': {'$A': 0.0, '$B': 1.0}, '$B': {'$A': 1.0, '$B': 0.0}}), aa=False),
 }
-QUICK = ['peo_linear', 'copolymer_labels', 'brush_terminal', 'cg_dextran', 'cg_terminal', 'cg_two_frags_orders', 'missing_key', 'table_with_foreign_keys', 'double_terminal', 'aa_with_masses', 'star_core', 'weighted_atoms', 'two_labels_on_one_atom']
+QUICK = ['peo_linear', 'copolymer_labels', 'brush_terminal', 'cg_dextran', 'cg_terminal', 'cg_two_frags_orders', 'missing_key', 'table_with_foreign_keys', 'double_terminal', 'aa_with_masses', 'star_core', 'weighted_atoms', 'two_labels_on_one_atom', 'vinylimidazole']
 
 
 class NoChoice(Exception):
